@@ -911,6 +911,10 @@ func (g *gen) pointSet(l int) []mgeom.Coord {
 }
 
 func (g *gen) geomOfType(t string) *mgeom.Geom {
+	if t != mgeom.GC && g.r.Chance(0.01) {
+		// a geometry created without a layout (it can only be empty)
+		return (&mgeom.Geom{T: t, L: 0}).Norm()
+	}
 	l := 1 + g.r.Intn(4)
 	cfg := g.cfg
 	cfg.ClosedRings = g.r.Chance(0.7)
